@@ -15,6 +15,7 @@ import (
 	"sort"
 	"strings"
 	"sync"
+	"sync/atomic"
 	"time"
 
 	"filippo.io/age"
@@ -64,7 +65,11 @@ var (
 // Close is a no-op: the same index may be handed to the next incarnation of the store
 func (k *c11kv) Close() error { return nil }
 
+// every look-up of the meta index counts as activity of the store (a packing goroutine reads one row per line)
+var c11kvActivity atomic.Int64
+
 func (k *c11kv) Get(key string) (string, error) {
+	c11kvActivity.Add(1)
 	v, err := k.KeyValue.Get(key)
 	k.mu.Lock()
 	w := k.waiting
@@ -253,12 +258,14 @@ func (e *c11env) open() error {
 	return nil
 }
 
-// settle waits until the wrapped meta store has seen no activity for a few milliseconds (packing goroutines done)
+// settle waits until the wrapped meta store and the meta index have seen no activity for a few milliseconds (packing
+// goroutines most likely done; a checkpoint taken while one is still at work is consistent all the same: views() looks
+// at the store and at the events since the last look under one lock)
 func (e *c11env) settle() {
 	last, stable := -1, 0
-	for i := 0; i < 2000 && stable < 4; i++ {
+	for i := 0; i < 4000 && stable < 6; i++ {
 		e.meta.mu.Lock()
-		a := e.meta.activity
+		a := e.meta.activity + int(c11kvActivity.Load())
 		e.meta.mu.Unlock()
 		if a == last {
 			stable++
@@ -277,6 +284,10 @@ func (e *c11env) drainEvents(skipPuts int) {
 	evs := e.meta.events
 	e.meta.events = nil
 	e.meta.mu.Unlock()
+	e.applyEvents(evs, skipPuts)
+}
+
+func (e *c11env) applyEvents(evs []string, skipPuts int) {
 	aborts := strings.Count(e.logbuf.take(), "encrypt: failed to find the index entry")
 	for i := 0; i < aborts; i++ {
 		e.ops = append(e.ops, "HJobAbort")
@@ -335,8 +346,19 @@ func (e *c11env) views() (meta [][]int, blobs []int, index []int, err error) {
 	for i, p := range e.plains {
 		byContent[p] = i + 1
 	}
+	// one atomic look at the wrapped meta store: what it holds and what happened to it since the events were last taken
+	// (a packing goroutine may still be at work; every write below goes through the same lock)
+	e.meta.mu.Lock()
+	evs := e.meta.events
+	e.meta.events = nil
+	var metaData [][]byte
 	for _, br := range e.meta.order {
-		plain, ok := e.decrypt(e.meta.get(br))
+		metaData = append(metaData, e.meta.get(br))
+	}
+	e.meta.mu.Unlock()
+	e.applyEvents(evs, 0)
+	for _, data := range metaData {
+		plain, ok := e.decrypt(data)
 		var ids []int
 		if ok {
 			lines := strings.Split(strings.TrimSuffix(string(plain), "\n"), "\n")
